@@ -59,6 +59,8 @@ func (clientScn) Generate(g *simrt.Rng, tier string) any {
 				ops = append(ops, CliOp{Kind: "conn"})
 			case 2, 3, 4, 5:
 				ops = append(ops, CliOp{Kind: "channel", Us: simrt.Pick(g, 0, 100, 5000, 100000, 1000000)})
+			case 7:
+				ops = append(ops, CliOp{Kind: "closeconn"})
 			case 6:
 				if closers < 2 && g.Bool(0.5) {
 					ops = append(ops, CliOp{Kind: "close"})
@@ -86,8 +88,10 @@ func (clientScn) Generate(g *simrt.Rng, tier string) any {
 				// a long outage: the back-off reaches its cap and the attempt counter grows large
 				p.Server = append(p.Server, SrvOp{Kind: "sleep", Us: simrt.Pick(g, 20_000_000, 90_000_000, 200_000_000)})
 			}
-		case g.Bool(0.4):
+		case g.Bool(0.25):
 			p.Server = append(p.Server, SrvOp{Kind: "reset"})
+		case g.Bool(0.25):
+			p.Server = append(p.Server, SrvOp{Kind: "reset1", N: g.IntN(3)})
 		case g.Bool(0.3):
 			// the server (or something in front of it) accepts the connection and fails the handshake, several times in a row
 			p.Server = append(p.Server, SrvOp{Kind: "reset"}, SrvOp{Kind: "cut", N: 1 + g.IntN(8)})
@@ -334,6 +338,18 @@ func (r *clientRun) main() {
 						pr.Reset("harness")
 					}
 				}
+			case "reset1":
+				// only one of the client's connections dies (the op.N-th live one)
+				k := 0
+				for _, pr := range r.net.Pairs() {
+					if !pr.IsReset && !pr.C.Closed() {
+						if k == op.N {
+							pr.Reset("harness")
+							break
+						}
+						k++
+					}
+				}
 			case "cut":
 				r.net.CutHandshakes(simAddr, op.N)
 			case "refuse":
@@ -436,6 +452,12 @@ func (r *clientRun) clientTask(i int, ops []CliOp) {
 		switch op.Kind {
 		case "sleep":
 			hSleep(time.Duration(op.Us) * time.Microsecond)
+		case "closeconn":
+			// the user closes the connection it was handed (the client has to replace it on demand)
+			if conn, st := r.cl.Conn(r.bg); st.OK() && conn != nil {
+				cst := conn.Close()
+				simrt.Logf("cli%d Conn().Close() -> %s", i, stName(cst))
+			}
 		case "conn":
 			invokedAfterClose := r.closed
 			conn, st := r.cl.Conn(r.bg)
